@@ -243,6 +243,18 @@ def handle (ts : List String) : Option String :=
       | .ok s => pure s
       | .error p => pure (panicStr p)
     | _ => none
+  | ["specverb", flags, start, end_, _idx, _level, gs] => do
+    -- Apple's verb table (Spec/Aat.applyVerb) on the marked range [start, end): glyph ids only
+    let flags ← flags.toNat?; let start ← start.toNat?; let end_ ← end_.toNat?
+    let gs ← pGlyphs gs
+    let xs := gs.map (·.gid)
+    let verb := flags % 16
+    let out := if verb != 0 && start < end_ && end_ ≤ xs.length && end_ - start ≤ 64 then
+        match RbModel.Spec.Aat.applyVerb verb ((xs.drop start).take (end_ - start)) with
+        | some r => xs.take start ++ r ++ xs.drop end_
+        | none => xs
+      else xs
+    pure ("ok " ++ (if out.isEmpty then "-" else ",".intercalate (out.map toString)))
   | "spec" :: _hex :: "R" :: rest => do
     -- the reference interpreter of Spec/Aat (no user features): glyph ids only, `undef` outside its domain
     let (rec, inp) := splitAtI rest
